@@ -186,6 +186,7 @@ PATTERNS = [
     ((E(True, "api."), E(True, "www."), E(False, "example")),),
     ((E(False, "example", ".com"),), (E(False, "www.", "example", ".com"),)),          # example\.com|www\.example\.com
     ((E(False, "api."),), (E(False, "example"), E(True, ".com"))),                    # api\.|example(\.com)?
+    ((E(True, "www."),),),                                                            # (www\.)?  - also matches a missing Host header
 ]
 HCONC = [TOK, {"www.": "WWW.", "api.": "a-p.i.", "example": "ex+ample", ".com": ".c(om", ":8000": ":80[00"}]
 
@@ -206,7 +207,7 @@ def run_hosts(ctx, tier):
     for n in (1, 2, 3):
         tabs += [tuple(t) for t in itertools.permutations(PATTERNS, n)]
     if tier == "quick":
-        tabs = tabs[::4]
+        tabs = tabs[::6]
     toks = list(TOK)
     vals = []
     for n in range(0, 4 if tier == "quick" else 5):
